@@ -3,11 +3,12 @@
    operation and query by query, under decidable per-path premises `names_okb` (DESIGN.md Appendix A.3):
 
      for the DAG paths D, days and file keys K a history uses
-       - directory names of distinct DAGs differ and contain no glob metacharacter, the patterns are well-formed
+       - directory names of distinct DAGs differ, the (escaped) patterns are well-formed and select the DAG's own directory
        - the glob patterns of a key's DAG match the key's rendered file name (today pattern: iff the day agrees)
-       - the time-stamp scan of a key's rendered path finds the first 17 bytes of its start stamp
+       - the time-stamp scan of a key's rendered path finds its start stamp (with milliseconds)
        - rendering is injective on K; the compaction twin's name is the one jsondb.Compact computes
-   Unsafe names falsify these premises - that is F6b / F6c (witnesses in Hist/ProofsTop.v).
+   Before the repairs 8ffc003 / e6d6379 names with glob metacharacters or stamp-like substrings falsified these premises
+   (F6b / F6c); on the repaired code they satisfy them (Examples in Hist/ProofsC06Ex.v).
    No string reasoning happens beyond these premises (and replace1 on a prefix). *)
 From Coq Require Import List String Ascii Bool Arith ZArith Lia Permutation.
 Import ListNotations.
@@ -43,21 +44,29 @@ Definition render_state (h : sstate) : hstate :=
 (* ---------------------------------------------------------------------------------------------- *)
 (* The decidable premises                                                                          *)
 (* ---------------------------------------------------------------------------------------------- *)
+Definition rdirpat (d : string) : string := dirpat dirhash d.     (* the escaped directory name, as it stands in the glob patterns *)
 Definition pat_ok (d pat : string) : bool :=
-  match go_match (loc ++ "/" ++ rdir d ++ "/" ++ pat) "" with Some _ => true | None => false end.
+  match go_match (loc ++ "/" ++ rdirpat d ++ "/" ++ pat) "" with Some _ => true | None => false end.
+Definition obool_eqb (a : option bool) (b : bool) : bool :=
+  match a with Some x => Bool.eqb x b | None => false end.
+(* how Glob finds the directory of d: without metacharacters in the (escaped) directory pattern by name - the pattern then is the
+   name itself; with metacharacters (i.e. escapes) by matching the pattern against every directory: it must match its own only *)
+Definition dirsel_okb (D : list string) (d : string) : bool :=
+  if has_meta (rdirpat d)
+  then match go_match (loc ++ "/" ++ rdirpat d) "" with Some _ => true | None => false end
+       && forallb (fun d' => obool_eqb (go_match (rdirpat d) (rdir d')) (String.eqb d d')) D
+  else String.eqb (rdirpat d) (rdir d).
 Definition dag_okb (D : list string) (days : list string) (d : string) : bool :=
-  negb (has_meta (rdir d))
+  dirsel_okb D d
   && pat_ok d (pat_all d) && pat_ok d (pat_latest d None)
   && forallb (fun day => pat_ok d (pat_latest d (Some day))) days
   && forallb (fun d' => implb (String.eqb (rdir d) (rdir d')) (String.eqb d d')) D.
-Definition obool_eqb (a : option bool) (b : bool) : bool :=
-  match a with Some x => Bool.eqb x b | None => false end.
 Definition key_okb (D : list string) (days : list string) (K : list skey) (k : skey) : bool :=
   existsb (String.eqb (k_dag k)) D
   && obool_eqb (go_match (pat_all (k_dag k)) (rname k)) true
   && obool_eqb (go_match (pat_latest (k_dag k) None) (rname k)) true
   && forallb (fun day => obool_eqb (go_match (pat_latest (k_dag k) (Some day)) (rname k)) (String.eqb (take 8 (k_stamp k)) day)) days
-  && String.eqb (find_ts (rpath k)) (take 17 (k_stamp k))
+  && String.eqb (find_ts (rpath k)) (k_stamp k)
   && forallb (fun k' => implb (String.eqb (rname k) (rname k') && String.eqb (k_dag k) (k_dag k')) (skey_eqb k k')) K
   && (k_c k || String.eqb (trim_ext (rname k) ++ "_c.dat") (rname (twin k))).
 Definition names_okb (D : list string) (days : list string) (K : list skey) : bool :=
@@ -78,8 +87,8 @@ Ltac andb_all := repeat match goal with H : (_ && _)%bool = true |- _ => apply a
 Ltac dag_facts d H := let A := fresh "A" in pose proof (dag_ok d H) as A; unfold dag_okb in A; andb_all.
 Ltac key_facts k H := let A := fresh "A" in pose proof (key_ok k H) as A; unfold key_okb in A; andb_all.
 
-Lemma nk_nometa d : In d D -> has_meta (rdir d) = false.
-Proof. intros H. dag_facts d H. match goal with X : negb _ = true |- _ => apply negb_true_iff in X; exact X end. Qed.
+Lemma nk_dirsel d : In d D -> dirsel_okb D d = true.
+Proof. intros H. dag_facts d H. assumption. Qed.
 Lemma nk_dir_inj d d' : In d D -> In d' D -> rdir d = rdir d' -> d = d'.
 Proof.
   intros H H' E. dag_facts d H.
@@ -116,7 +125,7 @@ Proof.
   intros H Hd. key_facts k H.
   match goal with X : forallb (fun day => obool_eqb _ _) days = true |- _ => rewrite forallb_forall in X; apply obool_eqb_true; auto end.
 Qed.
-Lemma nk_scan k : In k K -> find_ts (rpath k) = take 17 (k_stamp k).
+Lemma nk_scan k : In k K -> find_ts (rpath k) = k_stamp k.
 Proof. intros H. key_facts k H. apply String.eqb_eq; assumption. Qed.
 Lemma nk_inj k k' : In k K -> In k' K -> rname k = rname k' -> k_dag k = k_dag k' -> k = k'.
 Proof.
@@ -288,25 +297,61 @@ Proof.
   - apply IH; auto. intros; apply DI; simpl; auto.
 Qed.
 
+Lemma sel_dirs_filter pat (f : string -> bool) l : (forall x, In x l -> go_match pat x = Some (f x)) -> sel_dirs pat l = Some (filter f l).
+Proof.
+  induction l as [|x l IH]; simpl; intros H; auto.
+  rewrite (H x (or_introl eq_refl)). rewrite IH by (intros; apply H; auto). destruct (f x); reflexivity.
+Qed.
+
+(* the directories Glob visits for the pattern of d: its own directory, when it exists *)
+Lemma glob_dir_list s d : keys_in s -> dirs_nodup s -> In d D ->
+  (if has_meta (rdirpat d)
+   then match go_match (loc ++ "/" ++ rdirpat d) "" with
+        | None => None
+        | Some _ => sel_dirs (rdirpat d) (isort String.ltb (map rdir (sdirs s)))
+        end
+   else Some (filter (String.eqb (rdirpat d)) (map rdir (sdirs s))))
+  = Some (if shas_dir s d then [rdir d] else []).
+Proof.
+  intros KI N H. pose proof (nk_dirsel d H) as DS. unfold dirsel_okb in DS.
+  destruct (has_meta (rdirpat d)).
+  - apply andb_prop in DS. destruct DS as [V M]. destruct (go_match (loc ++ "/" ++ rdirpat d) ""); [|discriminate].
+    rewrite forallb_forall in M.
+    rewrite (sel_dirs_filter (rdirpat d) (String.eqb (rdir d))).
+    + f_equal. pose proof (filter_dirs_render s d KI N H) as FD.
+      assert (PM : Permutation (filter (String.eqb (rdir d)) (isort String.ltb (map rdir (sdirs s)))) (filter (String.eqb (rdir d)) (map rdir (sdirs s))))
+        by (apply Permutation_filter, isort_perm).
+      rewrite FD in PM. destruct (shas_dir s d).
+      * apply Permutation_length_1_inv. apply Permutation_sym. exact PM.
+      * apply Permutation_nil. apply Permutation_sym. exact PM.
+    + intros x Ix. eapply Permutation_in in Ix; [|apply isort_perm]. apply in_map_iff in Ix. destruct Ix as [d0 [E I0]]. subst x.
+      destruct KI as [_ DI]. specialize (M d0 (DI d0 I0)). apply obool_eqb_true in M. rewrite M. f_equal.
+      symmetry. apply nk_dir_eqb; auto.
+  - apply String.eqb_eq in DS. rewrite DS. f_equal. apply filter_dirs_render; auto.
+Qed.
+
 Lemma glob_render s d pk : keys_in s -> dirs_nodup s -> In d D -> pk_in pk ->
-  glob loc (render_fs s) (rdir d) (pat_of d pk) = GOk (map render_ent (sglob rname s d pk)).
+  glob loc (render_fs s) (rdirpat d) (pat_of d pk) = GOk (map render_ent (sglob rname s d pk)).
 Proof.
   intros KI N H P. unfold glob.
   assert (V : pat_ok d (pat_of d pk) = true).
   { destruct pk as [|day]; simpl; [apply nk_pat_all; auto | apply nk_pat_latest; auto]. }
   unfold pat_ok in V. destruct (go_match _ "") eqn:G; [|discriminate].
-  rewrite nk_nometa by auto. simpl dirs. rewrite filter_dirs_render by auto.
-  unfold sglob. destruct (shas_dir s d); simpl; auto.
-  simpl files.
-  assert (F : filter (fun e => String.eqb (e_dir e) (rdir d)) (map render_ent (sfiles s))
-              = map render_ent (filter (fun e => String.eqb (k_dag (fst e)) d) (sfiles s))).
-  { rewrite filter_map_comm. f_equal. apply filter_ext_in'. intros e He. unfold e_dir. simpl.
-    destruct KI as [KI _]. apply nk_dir_eqb; auto. apply nk_dag; auto. }
-  rewrite F.
-  rewrite (isort_map render_ent (fun x y => String.ltb (rname (fst x)) (rname (fst y)))) by reflexivity.
-  rewrite (glob_names_render d pk); auto.
-  intros e He. eapply Permutation_in in He; [|apply isort_perm]. apply filter_In in He. destruct He as [I E].
-  apply String.eqb_eq in E. destruct KI as [KI _]. auto.
+  pose proof (glob_dir_list s d KI N H) as DL. simpl dirs.
+  assert (MAIN : glob_dirs (pat_of d pk) (render_fs s) (if shas_dir s d then [rdir d] else []) [] = GOk (map render_ent (sglob rname s d pk))).
+  { unfold sglob. destruct (shas_dir s d); simpl; auto.
+    assert (F : filter (fun e => String.eqb (e_dir e) (rdir d)) (map render_ent (sfiles s))
+                = map render_ent (filter (fun e => String.eqb (k_dag (fst e)) d) (sfiles s))).
+    { rewrite filter_map_comm. f_equal. apply filter_ext_in'. intros e He. unfold e_dir. simpl.
+      destruct KI as [KI _]. apply nk_dir_eqb; auto. apply nk_dag; auto. }
+    rewrite F.
+    rewrite (isort_map render_ent (fun x y => String.ltb (rname (fst x)) (rname (fst y)))) by reflexivity.
+    rewrite (glob_names_render d pk); auto.
+    intros e He. eapply Permutation_in in He; [|apply isort_perm]. apply filter_In in He. destruct He as [I E].
+    apply String.eqb_eq in E. destruct KI as [KI _]. auto. }
+  destruct (has_meta (rdirpat d)).
+  - destruct (go_match (loc ++ "/" ++ rdirpat d) ""); [|discriminate]. rewrite DL. exact MAIN.
+  - inversion DL as [DL']. rewrite DL'. exact MAIN.
 Qed.
 
 (* elements of a glob result are files of the store, of that DAG *)
@@ -474,7 +519,7 @@ Lemma q_find_render s d req : keys_in s -> dirs_nodup s -> In d D ->
   q_find loc dirhash (render_fs s) d req = render_fres (sq_find rname rpath s d req).
 Proof.
   intros KI N H. unfold q_find, sq_find.
-  change (pat_all d) with (pat_of d PAll). fold (rdir d). rewrite glob_render; simpl; auto. apply find_in_render.
+  change (pat_all d) with (pat_of d PAll). fold (rdirpat d). rewrite glob_render; simpl; auto. apply find_in_render.
 Qed.
 Lemma sq_find_key s d req k p : keys_in s -> sq_find rname rpath s d req = SFFound k p -> In k K /\ k_dag k = d.
 Proof.
@@ -523,10 +568,10 @@ Proof.
   - rewrite q_find_render by auto. destruct (sq_find rname rpath (sst h) d req) as [|k p]; simpl; auto.
     rewrite map_map. reflexivity.
   - destruct P as [P1 P2]. fold (rdir d). rewrite has_dir_render by auto. destruct (shas_dir (sst h) d); simpl; auto.
-    change (pat_all d) with (pat_of d PAll). fold (rdir d). rewrite glob_render; simpl; auto.
+    change (pat_all d) with (pat_of d PAll). fold (rdirpat d). rewrite glob_render; simpl; auto.
     f_equal. rewrite map_app, !map_map. f_equal. apply map_ext_in. intros e He. simpl.
     unfold e_dir, e_name. simpl. apply sglob_in in He. destruct He as [_ [Ed _]]. rewrite <- Ed at 1. rewrite fname_rekey. reflexivity.
-  - unfold glob_list. change (pat_all d) with (pat_of d PAll). fold (rdir d). rewrite glob_render; simpl; auto.
+  - unfold glob_list. change (pat_all d) with (pat_of d PAll). fold (rdirpat d). rewrite glob_render; simpl; auto.
     rewrite filter_map_comm, !map_map. reflexivity.
   - reflexivity.
 Qed.
@@ -594,7 +639,7 @@ Lemma q_latest_render c s d day : keys_in s -> dirs_nodup s -> cache_in c -> In 
   = (render_cache (fst (sq_latest rname c s d day)), snd (sq_latest rname c s d day)) /\ cache_in (fst (sq_latest rname c s d day)).
 Proof.
   intros KI N CI H P. unfold q_latest, sq_latest.
-  change (pat_latest d day) with (pat_of d (PLatest day)). fold (rdir d). rewrite glob_render by auto.
+  change (pat_latest d day) with (pat_of d (PLatest day)). fold (rdirpat d). rewrite glob_render by auto.
   apply latest_of_render; auto. intros e He. apply sglob_in in He. destruct He as [I _]. destruct KI as [KI _]. auto.
 Qed.
 Lemma q_recent_render c s d n : keys_in s -> dirs_nodup s -> cache_in c -> In d D ->
@@ -602,7 +647,7 @@ Lemma q_recent_render c s d n : keys_in s -> dirs_nodup s -> cache_in c -> In d 
   = (render_cache (fst (sq_recent rname c s d n)), snd (sq_recent rname c s d n)) /\ cache_in (fst (sq_recent rname c s d n)).
 Proof.
   intros KI N CI H. unfold q_recent, sq_recent.
-  change (pat_all d) with (pat_of d PAll). fold (rdir d). rewrite glob_render; simpl; auto.
+  change (pat_all d) with (pat_of d PAll). fold (rdirpat d). rewrite glob_render; simpl; auto.
   apply recent_of_render; auto. intros e He. apply sglob_in in He. destruct He as [I _]. destruct KI as [KI _]. auto.
 Qed.
 
